@@ -120,6 +120,8 @@ def main():
     texts += F.f_rule_chains(ops, depth=3)
     texts += F.f_rule_pairs(both, consts=[0, 1, F.MASK], contexts=("stack",))[:: (3 if tier == "quick" else 1)]
     texts += F.f_mem((2,), deltas=[0, 32])
+    texts += F.f_mem_consuming()
+    texts += F.f_rule_existing()[:: (12 if tier == "quick" else 2)]
     texts += F.f_squares(sorted(set(ops) | {"MUL", "ADD", "EXP", "SUB", "DIV"}))
     texts += F.f_exh(2 if tier == "quick" else 3)
     texts += F.f_exh(3, vocab=F.V_EXH2)[:: (2 if tier == "quick" else 1)]
